@@ -470,7 +470,8 @@ class Adt(Ty):
 # random universe
 
 class Universe:
-    def __init__(self, seed, n_types=40, max_depth=3, n_defs=12):
+    def __init__(self, seed, n_types=40, max_depth=3, n_defs=12, prefix=''):
+        self.prefix = prefix
         self.rng = random.Random(seed)
         self.defs = []
         self.types = []     # instantiated top-level types to register
@@ -547,7 +548,7 @@ class Universe:
     # --- random definitions ------------------------------------------------------------------
     def fresh(self, prefix):
         self.counter += 1
-        return '%s%d' % (prefix, self.counter)
+        return '%s%s%d' % (self.prefix, prefix, self.counter)
 
     def rand_def(self):
         r = self.rng
